@@ -1073,7 +1073,7 @@ class CommitSavepointBody(ConnSpec):
     listed as modified and every object created in a savepoint is listed in _creating.  A normal
     return means every oid of the index was stored in the storage transaction of this commit."""
     func = CONN + '._commit_savepoint'
-    props = ('C12', 'C11')
+    props = ('C12', 'C11', 'C02')
     callable_contract = False
     label = 'body'
 
